@@ -132,6 +132,10 @@ theorem change_blocks_accumulate (blocks : List Block) (action k : String) (hk :
   funext b
   exact stream_eq_whole b.2 k hk
 
+/-- the streaming scanner reads with the same (strict, default) decoder configuration as whole-document
+    decoding: it changes no decoder setting -/
+theorem scanner_decoder_default : scannerDecoderSettings = [] := by decide
+
 /-! ## non-vacuity -/
 example : decodeAttrs "Bounds" [("maxlon", "4"), ("minlat", "1"), ("x-unknown", "z"), ("minlon", "3"), ("maxlat", "2")] =
     [("MinLat", "1"), ("MaxLat", "2"), ("MinLon", "3"), ("MaxLon", "4")] := by decide
